@@ -433,6 +433,20 @@ func runScript(c *mon.Case, sp spec) {
 			if !ok {
 				return
 			}
+			if R > 0 && R < time.Hour && c.Rand.Intn(2) == 0 {
+				// the request that took a cancelled one's place is a request like any other: left unanswered
+				// with its connection up, it is transmitted again when the retry interval has elapsed
+				again, ok := rig.AwaitTx(fi, 2, 2, R, "req/no-resend-after-retry-interval:request-after-a-cancelled-one")
+				if !ok {
+					return
+				}
+				if !bytes.Equal(again[1].Wire, again[0].Wire) {
+					c.Violate("req/retransmission-differs", "retransmission of the superseding request differs:\n first %x\n this  %x", again[0].Wire, again[1].Wire)
+					return
+				}
+				c.Count("retransmissions_of_request_after_cancelled_one", 1)
+				events += "T2"
+			}
 			live := rig.LivePipes()
 			live[c.Rand.Intn(len(live))].Inject(hx.ReplyWire(tx2[0].ID, 2))
 			rc2 := mon.Go("Recv2", func() (interface{}, error) { b, err := ctx.Recv(); return b, err })
